@@ -48,18 +48,38 @@ def cache_case(keys, inserts, lookup):
         if bool(got_cov) != want_cov:
             return {'what': 'check', 'keys': list(keys), 'inserts': inserts, 'lookup': lookup, 'got': bool(got_cov), 'want': want_cov}
     # retrieval: every stored entry agreeing with the lookup on every key they share, each once, merged
-    want = []
+    want, want_paths = [], {}
     for path, (b, o) in entries.items():
         if all(lookup[k] == b[k] for k in b if k in lookup):
             merged = dict(lookup)
             merged.update(b)
-            want.append((tuple(sorted(merged.items())), o))
+            item = (tuple(sorted(merged.items())), o)
+            want.append(item)
+            want_paths[item] = path
     got = []
     for res, o in c.retrieve(dict(q)):
         got.append((tuple(sorted((k, v.value) for k, v in res.items())), o))
     if sorted(got) != sorted(want):
+        missing = set(want) - set(got)
+        kind = 'missing' if missing else ('extra' if set(got) - set(want) else 'multiplicity')
+        sig = {'kind': kind}
+        if kind == 'missing':
+            # is every missed entry explained by the recorded branch preference (KF-C20-retrieve-misses)?  At some level
+            # of its path the lookup binds the key, the entry has the wildcard there and a sibling entry (same path
+            # before that level) has the lookup's concrete value; or the lookup does not bind the key, the entry is
+            # concrete there and a sibling entry has the wildcard.
+            def shadowed(path):
+                for i, k in enumerate(keys):
+                    sibs = [p for p in entries if p[:i] == path[:i] and p != path]
+                    if k in lookup and path[i] == '*' and any(p[i] == lookup[k] for p in sibs):
+                        return True
+                    if k not in lookup and path[i] != '*' and any(p[i] == '*' for p in sibs):
+                        return True
+                return False
+            sig['every_missed_entry_is_shadowed_by_a_sibling_branch'] = all(shadowed(want_paths[m]) for m in missing)
+            sig['nothing_extra'] = not (set(got) - set(want))
         return {'what': 'retrieve', 'keys': list(keys), 'inserts': inserts, 'lookup': lookup, 'got': sorted(got), 'want': sorted(want),
-                'signature': {'kind': 'missing' if set(want) - set(got) else ('extra' if set(got) - set(want) else 'multiplicity')}}
+                'signature': sig}
     return None
 
 
@@ -76,6 +96,7 @@ def standin_C20_cache(seed, args):
                 bindings.append(dict(zip(ks, vals)))
     nonempty = [b for b in bindings if b]
     failures = []
+    per_sig = {}
     n = 0
     t0 = time.time()
     exhaustive = True
@@ -87,7 +108,9 @@ def standin_C20_cache(seed, args):
                 d = cache_case(keys, inserts, lookup)
                 if d is not None:
                     d.setdefault('signature', {'kind': d['what']})
-                    if len(failures) < 5:
+                    sk = repr(sorted(d['signature'].items()))
+                    per_sig[sk] = per_sig.get(sk, 0) + 1
+                    if per_sig[sk] <= 3:       # a few witnesses per distinct kind of failure
                         failures.append(d)
             if time.time() - t0 > budget:
                 exhaustive = False
@@ -95,7 +118,7 @@ def standin_C20_cache(seed, args):
         if not exhaustive:
             break
     return {'evaluations': n, 'exhaustive': exhaustive, 'scope': f"{nkeys} keys, alphabet {alphabet}, <= {max_inserts} inserts, every lookup",
-            'failures': failures, 'n_failures': len(failures)}
+            'failures': failures, 'n_failures': sum(per_sig.values()), 'failures_by_signature': per_sig}
 
 
 def rerun_C20(inp):
